@@ -76,6 +76,24 @@ func (c17) Gen(tier string, seed int64, emit func([]Ev)) {
 			emit(c17History(r))
 		}
 	}
+	// a unit of more than a megabyte (6000 and 12000 full packets, written as one described event), then a reset or a
+	// new unit start and the usual questions
+	for variant := 0; variant < 4; variant++ {
+		pred := Ev{"done": 0, "fail": 0}
+		w := func(cc int, pusi bool, afl int) Ev {
+			p := mkPkt(r, 0x100, cc, pusi, true, afl)
+			return Ev{"op": "write", "pkt": B(p[:]), "pred": pred}
+		}
+		h := []Ev{w(0, true, -1), w(1, false, 100)}
+		big := mkPkt(r, 0x100, 2, false, true, -1)
+		h = append(h, Ev{"op": "write_rep", "pkt": B(big[:]), "n": []int{6000, 12000}[variant%2], "pred": pred})
+		if variant < 2 {
+			h = append(h, Ev{"op": "reset", "pred": pred}, w(3, false, 150), w(4, true, 150), w(5, false, 150))
+		} else {
+			h = append(h, w(3, true, -1), w(4, false, 150), Ev{"op": "reset", "pred": pred}, w(5, true, 150))
+		}
+		emit(h)
+	}
 	// a very large unit (several hundred full packets, more than 64 KiB of payload), then Reset and the usual
 	// questions: a reset accumulator behaves like a new one however much it held before
 	for _, variant := range []int{0, 1} {
@@ -205,6 +223,30 @@ func (c17) Exec(h []Ev) []Ev {
 			case "reset":
 				acc.Reset()
 				e["err"] = "reset"
+			case "write_rep":
+				// the same continuation packet written n times (described, not transmitted: a unit of more than a megabyte);
+				// only sizes are reported - the history goes on with a reset or a new unit start, which discard the unit
+				var p packet.Packet
+				copy(p[:], GB(e["pkt"]))
+				nonnil := 0
+				for k := GI(e["n"]); k > 0; k-- {
+					q := p
+					if _, err := acc.WritePacket(&q); err != nil {
+						nonnil++
+					}
+				}
+				e["err"], e["nonnil"] = "nil", nonnil
+				e["bytes_len"], e["pk_len"] = len(acc.Bytes()), len(acc.Packets())
+				e["bytes"], e["pk"] = []int{}, []int{}
+				cur.lastB, cur.lastPk = string(acc.Bytes()), nil
+				for _, q := range acc.Packets() {
+					if q != nil {
+						cur.lastPk = append(cur.lastPk, *q)
+					} else {
+						cur.lastPk = append(cur.lastPk, packet.Packet{})
+					}
+				}
+				return
 			case "write":
 				var p packet.Packet
 				copy(p[:], GB(e["pkt"]))
@@ -357,6 +399,9 @@ func c17Interleave(r *rand.Rand, hs ...[]Ev) []Ev {
 func (c17) Class(e Ev) string {
 	if GS(e["op"]) == "reset" {
 		return "reset"
+	}
+	if GS(e["op"]) == "write_rep" {
+		return "write_rep"
 	}
 	p := GB(e["pkt"])
 	return fmt.Sprintf("write/pusi%v/afc%d/%s/held%d", p[1]&0x40 != 0, p[3]>>4&3, GS(e["err"]), len(GIs(e["pk"])))
